@@ -686,9 +686,22 @@ func c10Text(v interface{}) (string, bool) {
 }
 
 func (sp c10Spec) predictRepls(p *c10Pred, mode c10Mode) {
-	metaDirty := false
+	// writes into metadata change what later selectors see: the name / namespace for every later
+	// selector, labels / annotations for later label or annotation selectors
+	dirtyName, dirtyLabels := false, false
+	usesLabels := func(tg c10Target) bool {
+		if tg.Select != nil && (tg.Select.Lab != "" || tg.Select.Ann != "") {
+			return true
+		}
+		for _, r := range tg.Reject {
+			if r.Lab != "" || r.Ann != "" {
+				return true
+			}
+		}
+		return false
+	}
 	for _, rp := range sp.Repls {
-		if metaDirty {
+		if dirtyName {
 			p.unknown = true
 			return
 		}
@@ -728,10 +741,31 @@ func (sp c10Spec) predictRepls(p *c10Pred, mode c10Mode) {
 			p.err = true
 			return
 		}
+		var nsVal interface{} // a mapping / sequence source: copied by value (snapshot taken now)
 		val, isScalar := c10Text(slots[0].get())
 		if !isScalar {
-			p.unknown = true
-			return
+			switch x := slots[0].get().(type) {
+			case map[string]interface{}:
+				if len(x) == 0 {
+					p.err = true
+					return
+				}
+				nsVal = c10Deep(x)
+			case []interface{}:
+				if len(x) == 0 {
+					p.err = true
+					return
+				}
+				nsVal = c10Deep(x)
+			default:
+				p.unknown = true
+				return
+			}
+			if o := rp.Source.Options; o != nil && o.Delimiter != "" {
+				p.err = true // delimiter option can only be used with scalar nodes
+				return
+			}
+			val = "non-scalar"
 		}
 		if val == "" {
 			p.err = true // empty source field: "fieldPath is missing"? outside the domain
@@ -739,7 +773,7 @@ func (sp c10Spec) predictRepls(p *c10Pred, mode c10Mode) {
 			return
 		}
 		srcSlot := slots[0]
-		live := mode.SourceAlias && (rp.Source.Options == nil || rp.Source.Options.Delimiter == "")
+		live := mode.SourceAlias && nsVal == nil && (rp.Source.Options == nil || rp.Source.Options.Delimiter == "")
 		if o := rp.Source.Options; o != nil && o.Delimiter != "" {
 			pieces := strings.Split(val, o.Delimiter)
 			if o.Index < 0 || o.Index >= len(pieces) {
@@ -763,7 +797,7 @@ func (sp c10Spec) predictRepls(p *c10Pred, mode c10Mode) {
 			}
 		}
 		for _, tg := range rp.Targets {
-			if metaDirty {
+			if dirtyName || (dirtyLabels && usesLabels(tg)) {
 				p.unknown = true
 				return
 			}
@@ -816,8 +850,16 @@ func (sp c10Spec) predictRepls(p *c10Pred, mode c10Mode) {
 						p.unknown = true
 						return
 					}
-					if len(parts) >= 2 && parts[0] == "metadata" && (parts[1] == "name" || parts[1] == "namespace" || parts[1] == "labels" || parts[1] == "annotations") {
-						metaDirty = true // a later target selector / replacement would select on rewritten metadata
+					if len(parts) >= 2 && parts[0] == "metadata" {
+						switch parts[1] {
+						case "name", "namespace":
+							dirtyName = true
+						case "labels", "annotations":
+							dirtyLabels = true
+						}
+					}
+					if len(parts) == 1 && parts[0] == "metadata" {
+						dirtyName, dirtyLabels = true, true
 					}
 					create := tg.Options != nil && tg.Options.Create
 					slots, found, unk := c10Resolve(o, parts, create, mode.ListKeyRegex, false)
@@ -830,6 +872,19 @@ func (sp c10Spec) predictRepls(p *c10Pred, mode c10Mode) {
 						return
 					}
 					for _, s := range slots {
+						if nsVal != nil {
+							old := s.get()
+							if tg.Options != nil && tg.Options.Delimiter != "" {
+								p.unknown = true
+								return
+							}
+							if t, isScalar := c10Text(old); old != nil && isScalar && !(create && t == "") {
+								p.unknown = true // a scalar target only receives the (empty) text of a mapping: outside the oracle
+								return
+							}
+							s.set(c10Deep(nsVal))
+							continue
+						}
 						if live {
 							if v, ok := c10Text(srcSlot.get()); ok {
 								val = v
@@ -1092,9 +1147,9 @@ func (t c10Tree) classify(cls string, out string) string {
 
 // ---------- generation ----------
 
-var c10OracleImages = []string{"x", "x:1", "x-1:1", "ax:2", "x.y:3", "xzy:1", "xzy", "reg:5000/x", "reg:5000/x:1", "reg:5000/x@sha256:abc", "x@sha256:abc",
+var c10OracleImages = []string{"x:5000/app:1.0", "x:5000/x", "reg:5000/reg:2", "app:5000/x@sha256:abc", "x", "x:1", "x-1:1", "ax:2", "x.y:3", "xzy:1", "xzy", "reg:5000/x", "reg:5000/x:1", "reg:5000/x@sha256:abc", "x@sha256:abc",
 	"x:1@sha256:abc", "docker.io/lib/x:1", "x.y", "y:1", "app:v1", "reg/x.y:1", "reg/xzy:1"}
-var c10OracleEntryNames = []string{"x", "x", "x-1", "ax", "x.y", "xzy", "reg:5000/x", "docker.io/lib/x", "y", "app", "reg/x.y", "x"}
+var c10OracleEntryNames = []string{"reg", "app", "x", "x", "x-1", "ax", "x.y", "xzy", "reg:5000/x", "docker.io/lib/x", "y", "app", "reg/x.y", "x"}
 
 var c10WebNames = []string{"web", "api", "web-canary", "internal-api", "webapi", "api-web", "web"}
 
@@ -1194,6 +1249,12 @@ func c10GenTree(r *Rng) c10Tree {
 		}
 		t.Replicas = append(t.Replicas, c10ReplicaEntry{Name: name, Count: int64(3 + r.Intn(5))})
 	case 5, 6, 7: // replacements
+		if r.Chance(12) {
+			// a mapping / list source copied to several targets, then a write into a child of one copy
+			t.Res, t.Repls = c10GenSharedSource(r)
+			t.Prefix, t.Suffix = "", ""
+			return t
+		}
 		src := pick()
 		rp := c10Repl{Source: &c10Source{c10Id: c10Id{Kind: src.Kind, Name: src.Name}}}
 		if src.Namespace != "" {
